@@ -1,8 +1,10 @@
 """C02: inferred Go signatures are the principal types.
 spec/FoInfer.tla: unification as a nondeterministic machine (TLC: termination and confluence on constraint sets with sharing,
-diamonds, clashes and cycles) and the signature function Sig.  Functions with their constraint sets come from the seeded
-generator tools/vlib/infgen.py (the documented syntax-directed rules); TLC computes the principal type and which parameter
-annotations are redundant; every subset of redundant annotations is written, everything is transpiled by the real fc, the
+diamonds, clashes and cycles) and the signature function.  spec/FoInferGen.tla: the syntax-directed typing rules as constraint
+generation over abstract syntax, with top-level generalisation (the prelude's schemes are inferred, not given).  Functions come
+from the seeded generator tools/vlib/infgen.py as source text plus abstract syntax; TLC generates the constraints, computes the
+principal type and which parameter annotations are redundant (the generator's own derivation of the constraints is checked
+against the specification's: double entry); every subset of redundant annotations is written, everything is transpiled by the real fc, the
 signatures are read back with go/parser and validated by TLC (FoInferTrace.tla); the whole package must type-check in Go."""
 import itertools
 import json
@@ -28,6 +30,9 @@ def run_fns(ctx, fns):
     princ = core.read_ndjson(os.path.join(sd, "inf_principal.ndjson"))
     if len(princ) != len(fns):
         raise Infra("principal types missing")
+    dis = [p["name"] for p in princ if not p["agree"]]
+    if dis:
+        raise Infra("generator and FoInferGen disagree about the constraints of %s" % dis[:5])
     ctx.build("fc")
     fcutil.build_goast(ctx)
     wd = ctx.mkdir("c02")
@@ -130,7 +135,7 @@ def run(ctx):
     ctx.rule = ("functions of 1-4 un-annotated parameters from the seeded generator infgen.py over the constructs for which inference is "
                 "documented (arithmetic / comparison with a typed operand, = / <>, calls to library and user functions with known or generic "
                 "signatures (fresh instance per use), record / union construction, tuples, slices, destructuring, function-typed parameters "
-                "applied or passed once); quick 1200, thorough 60000 generated functions (those the rules reject as ill-typed are dropped, about 2/3), each with the un-annotated version and up to 7 subsets of its "
+                "applied or passed once, generic user records / unions constructed, put into one slice literal and passed where a concrete instance is expected); quick 1200, thorough 60000 generated functions (those the rules reject as ill-typed are dropped, about 2/3), each with the un-annotated version and up to 7 subsets of its "
                 "redundant annotations. distinct = distinct (function, annotated subset); non-trivial = the principal type contains a type "
                 "constructor or a type variable")
     r = ctx.tlc("FoInferMC", "FoInferMC.cfg", workers=4, timeout=1800)
@@ -153,7 +158,7 @@ def run(ctx):
         ctx.violation("function %s (annotated: %s): status %s; emitted signature [%d type params] (%s) %s, same code as un-annotated: %s; principal: [%d] (%s) %s\n%s" % (
             l["name"], l["annotated"], l["status"], l["ntparams"], ", ".join(l["gparams"]), l["gres"], l["samecode"], p["ntparams"], ", ".join(p["params"]), p["res"], l["src"]),
             {"fn": l["fn"], "source": l["src"], "recorded": {k: l[k] for k in ("status", "ntparams", "gparams", "gres", "samecode")}, "principal": p})
-    ctx.assumptions += ["the constraint rules of infgen.py are the documented inference rules (stage 1 of DESIGN 4.2: the rules are not yet in TLA+)",
+    ctx.assumptions += ["the abstract syntax infgen.py attaches to each function is the syntax of the text it writes (the constraints themselves are generated in TLA+, FoInferGen)",
                         "signatures are read back with go/parser; white space removed before comparison"]
 
 
